@@ -24,7 +24,7 @@ static Fault corrupt(std::string &doc, Rng &g, int kindsel) {
   Fault f; if (doc.empty()) { f.kind = "empty"; return f; }
   size_t n = doc.size(); size_t pos = (size_t)g.below(n);
   switch (kindsel % NKINDS) {
-  case 0: f.kind = "truncate"; if (g.chance(1, 4)) pos = (size_t)g.below(std::min<size_t>(n, 400)); doc.resize(pos); break;                                                        // EOF at an arbitrary byte: torn write
+  case 0: f.kind = "truncate"; if (g.chance(1, 4)) pos = (size_t)g.below(std::min<size_t>(n, 400)); if (g.chance(1, 12)) pos = 0; /* nothing reached the disk */ doc.resize(pos); break;                                                        // EOF at an arbitrary byte: torn write
   case 1: f.kind = "flip"; doc[pos] = (char)(doc[pos] ^ (1 << g.below(8))); if (!doc[pos]) doc[pos] = ' '; break;   // flipped stored bit
   case 2: { f.kind = "zero_block"; size_t l = 1 + (size_t)g.below(64); for (size_t i = pos; i < n && i < pos + l; i++) doc[i] = ' '; break; }
   case 3: { f.kind = "dup_block"; size_t l = 1 + (size_t)g.below(200); doc.insert(pos, doc.substr(pos, std::min(l, n - pos))); break; }
